@@ -256,7 +256,6 @@ func ruleDispatch(c *Ctx) {
 		b.operationOrderObligation(l, ai)
 		if b.Name == "v5" {
 			b.emptyPathIsRoot(l, ai)
-			b.rootOnlyForEmptyPointer(l, ai)
 		}
 		// (a) case set and handlers
 		var got []string
@@ -1578,11 +1577,13 @@ func describeValue(v ssa.Value) string {
 func ruleSuccess(c *Ctx) {
 	for _, b := range c.bodies() {
 		l := c.L
+		b.arrayStaysArray(l)
 		ai := b.findApply()
 		if ai == nil {
 			l.add("R-SUCCESS", b.Name, "anchor apply loop", "", Undecided, "apply loop not found", false)
 			continue
 		}
+		b.refusalReasons(l, ai)
 		need := map[string]string{"add": "add", "move": "add", "copy": "add", "replace": "set", "remove": "remove", "test": ""}
 		for _, k := range rfc6902Kinds {
 			h := ai.handlers[k]
